@@ -562,7 +562,7 @@ func main() {
 	w.WriteString("(* ---- package radius ---- *)\n")
 	emitConsts(&w, "", root)
 	emitFuncs(&w, "", root)
-	emitSync(&w, root, []string{"PacketServer_Serve", "PacketServer_Shutdown", "PacketServer_activeAdd", "PacketServer_activeDone", "PacketServer_initLocked"})
+	emitSync(&w, root, []string{"PacketServer_Serve", "PacketServer_Shutdown", "PacketServer_activeAdd", "PacketServer_activeDone", "PacketServer_initLocked", "Client_Exchange"})
 
 	for _, sub := range []string{"rfc2759", "rfc3079", "dictionary", "dictionarygen"} {
 		pi := loadPkg(filepath.Join(repo, sub))
